@@ -64,8 +64,8 @@ class Ctx:
     def tname(self, name):
         return f"{self.tag}_{name}"
 
-    def cleanup(self):
-        keep = bool(self.rep.violations)
+    def cleanup(self, failed=False):
+        keep = bool(self.rep.violations) or failed
         pats = [os.path.join(WORK, f"rg_{self.tag}_*"), os.path.join(WORK, "records", f"{self.tag}_*"),
                 os.path.join(WORK, "records", f"rec_{self.tag}_*")]
         if not keep:
@@ -425,10 +425,12 @@ def require_classes(ctx, needed):
 def check(pid, tier):
     ctx = Ctx(pid, tier)
     rep = ctx.rep
+    failed = False
     try:
         _check(ctx)
         _finish_parts(ctx)
     except Exception:
+        failed = True
         if rep.violations:
             try:
                 _finish_parts(ctx)
@@ -438,7 +440,7 @@ def check(pid, tier):
         raise
     finally:
         try:
-            ctx.cleanup()
+            ctx.cleanup(failed)
         except Exception:
             pass
     return rep.finish()
